@@ -223,6 +223,66 @@ def oracle(chk, c, o):
     return n
 
 
+def design_level(chk):
+    """the other observation point: BoreFieldData.csv / the selected field of ROWWISE designs made through GHEManager — two designs one
+    after the other in ONE process (a lot, then the same lot translated), and a lot with a TRIANGULAR no-go zone given through the
+    public interface (geometry.py and the search class lie between the user's polygons and field_optimization_*)"""
+    import csv
+    from configs import cfg
+    lot = [[0.0, 0.0], [48.0, 0.0], [58.0, 28.0], [30.0, 46.0], [0.0, 34.0]]
+    tri = [[18.0, 12.0], [34.0, 15.0], [24.0, 30.0]]
+    dx, dy = 120.0, 80.0
+    go = {"perimeter_spacing_ratio": None, "max_spacing": 12.0, "min_spacing": 5.0, "spacing_step": 1.0, "max_rotation": 10.0, "min_rotation": -10.0, "rotate_step": 5.0}
+    ld = {"kind": "balanced", "scale": 26000.0, "seed": 5}
+    a = cfg("ROWWISE", months=12, loads=ld, geom_over=dict(go, property_boundary=lot, no_go_boundaries=[]))
+    b = cfg("ROWWISE", months=12, loads=ld, geom_over=dict(go, property_boundary=[[x + dx, y + dy] for x, y in lot], no_go_boundaries=[]))
+    c = cfg("ROWWISE", months=12, loads=ld, geom_over=dict(go, property_boundary=lot, no_go_boundaries=[tri], perimeter_spacing_ratio=0.8))
+    d = cfg("ROWWISE", months=12, loads=ld, geom_over=dict(go, property_boundary=lot, no_go_boundaries=[list(reversed(tri))]))
+    seqs = [[a, b], [c]] if chk.tier == "quick" else [[a, b], [c], [d, a]]
+    work = os.path.join(chk.scratch, "rwdesign")
+    from concurrent.futures import ThreadPoolExecutor
+
+    def one(k):
+        od = os.path.join(work, f"s{k}")
+        os.makedirs(od, exist_ok=True)
+        return run_impl("e2e.py", {"configs": seqs[k], "outdir": od}, timeout=3000)
+    with ThreadPoolExecutor(max_workers=len(seqs)) as ex:
+        rs = list(ex.map(one, range(len(seqs))))
+    n = 0
+    for seq, rr in zip(seqs, rs):
+        if isinstance(rr, dict) and "_error" in rr:
+            chk.broken.append({"name": "end-to-end ROWWISE run failed in the harness", "detail": rr["_error"][-300:]})
+            continue
+        for pos, (cf, r) in enumerate(zip(seq, rr)):
+            chk.cov["evaluations"] += 1
+            gc = cf["geometric_constraints"]
+            pub = {"sequence_position": pos, "geometric_constraints": gc, "loads": cf["loads"], "earlier_in_the_same_process": [x["geometric_constraints"]["property_boundary"] for x in seq[:pos]]}
+            if not r.get("ok"):
+                if r.get("exc") != "ValueError" and len(chk.violations) < 5:
+                    chk.violation("rowwise-design", pub, {"exception": r.get("exc"), "msg": r.get("msg")}, "a ROWWISE design on a convex lot ends with a design")
+                continue
+            fields = {"selected field": r["coords"]}
+            try:
+                with open(os.path.join(r["outdir"], "BoreFieldData.csv")) as fh:
+                    fields["BoreFieldData.csv"] = [[float(x[0]), float(x[1])] for x in list(csv.reader(fh))[1:]]
+            except (OSError, ValueError, KeyError) as ex_:
+                chk.notes.append({"borefield_csv_not_read": str(ex_)})
+            for where, pts in fields.items():
+                n += 1
+                out = [p for p in pts if not inside_convex(p, gc["property_boundary"])]
+                if out and len(chk.violations) < 5:
+                    chk.violation("rowwise-design", pub, {"where": where, "outside": out[:3], "of": len(pts)}, "every borehole inside or on the outline")
+                for ng in gc["no_go_boundaries"]:
+                    bad = [p for p in pts if strictly_inside(p, ng if is_ccw(ng) else list(reversed(ng)), 1e-6)]
+                    if bad and len(chk.violations) < 5:
+                        chk.violation("rowwise-design", pub, {"where": where, "inside_no_go": bad[:3], "of": len(pts)}, "no borehole inside a no-go zone")
+    return n
+
+
+def is_ccw(poly):
+    return sum(poly[i - 1][0] * poly[i][1] - poly[i][0] * poly[i - 1][1] for i in range(len(poly))) > 0
+
+
 def run(chk):
     quick = chk.tier == "quick"
     chk.build("C14", extra=["Model/RowCore"])
@@ -351,6 +411,8 @@ def run(chk):
         if not same and len(chk.violations) < 5:
             chk.violation("rowwise-translate", {"lot": a_, "translated_by": [dx, dy]}, {"boreholes": len(pa), "boreholes_of_the_translated_lot": len(pb)},
                           "translating the lot translates the field rigidly")
+    if len(chk.violations) < 5:
+        nontrivial += design_level(chk)
     # correspondence with the exact model: the rectangle at rotation 0 (sorted point sets, 1e-6 m)
     if getattr(chk, "model_ok", False):
         items = []
@@ -390,6 +452,8 @@ Eval vm_compute in (length cases, length (filter (fun c => negb (ok c)) cases), 
 def replay(payload):
     from lib import Check
     chk = Check("C14", "quick", payload.get("seed", 0))
+    if payload.get("kind") != "rowwise":
+        return "RERUN"
     c = payload["input"]
     rr = run_impl("rowwise_drv.py", {"cases": [c]}, timeout=200)
     if payload.get("kind") == "rowwise":
